@@ -1473,6 +1473,29 @@ class LogicalOrExpression(Expression):
         return [self.left, self.right]
 
 
+def _operand(expression: Expression, *, right: bool = False) -> str:
+    """Return _expression_ as the operand of a comparison or membership operator."""
+    if isinstance(
+        expression, (LogicalAndExpression, LogicalOrExpression, LogicalNotExpression)
+    ):
+        return f"({BooleanExpression(expression.token, expression)})"
+    if right and isinstance(
+        expression,
+        (
+            EqExpression,
+            NeExpression,
+            LeExpression,
+            GeExpression,
+            LtExpression,
+            GtExpression,
+            ContainsExpression,
+            InExpression,
+        ),
+    ):
+        return f"({expression})"
+    return str(expression)
+
+
 class EqExpression(Expression):
     __slots__ = ("left", "right")
 
@@ -1482,7 +1505,7 @@ class EqExpression(Expression):
         self.right = right
 
     def __str__(self) -> str:
-        return f"{self.left} == {self.right}"
+        return f"{_operand(self.left)} == {_operand(self.right, right=True)}"
 
     def evaluate(self, context: RenderContext) -> object:
         return _eq(self.left.evaluate(context), self.right.evaluate(context))
@@ -1506,7 +1529,7 @@ class NeExpression(Expression):
         self.right = right
 
     def __str__(self) -> str:
-        return f"{self.left} != {self.right}"
+        return f"{_operand(self.left)} != {_operand(self.right, right=True)}"
 
     def evaluate(self, context: RenderContext) -> object:
         return not _eq(self.left.evaluate(context), self.right.evaluate(context))
@@ -1530,7 +1553,7 @@ class LeExpression(Expression):
         self.right = right
 
     def __str__(self) -> str:
-        return f"{self.left} <= {self.right}"
+        return f"{_operand(self.left)} <= {_operand(self.right, right=True)}"
 
     def evaluate(self, context: RenderContext) -> object:
         left = self.left.evaluate(context)
@@ -1555,7 +1578,7 @@ class GeExpression(Expression):
         self.right = right
 
     def __str__(self) -> str:
-        return f"{self.left} >= {self.right}"
+        return f"{_operand(self.left)} >= {_operand(self.right, right=True)}"
 
     def evaluate(self, context: RenderContext) -> object:
         left = self.left.evaluate(context)
@@ -1580,7 +1603,7 @@ class LtExpression(Expression):
         self.right = right
 
     def __str__(self) -> str:
-        return f"{self.left} < {self.right}"
+        return f"{_operand(self.left)} < {_operand(self.right, right=True)}"
 
     def evaluate(self, context: RenderContext) -> object:
         return _lt(
@@ -1607,7 +1630,7 @@ class GtExpression(Expression):
         self.right = right
 
     def __str__(self) -> str:
-        return f"{self.left} > {self.right}"
+        return f"{_operand(self.left)} > {_operand(self.right, right=True)}"
 
     def evaluate(self, context: RenderContext) -> object:
         return _lt(
@@ -1634,7 +1657,7 @@ class ContainsExpression(Expression):
         self.right = right
 
     def __str__(self) -> str:
-        return f"{self.left} contains {self.right}"
+        return f"{_operand(self.left)} contains {_operand(self.right, right=True)}"
 
     def evaluate(self, context: RenderContext) -> object:
         return _contains(
@@ -1661,7 +1684,7 @@ class InExpression(Expression):
         self.right = right
 
     def __str__(self) -> str:
-        return f"{self.left} in {self.right}"
+        return f"{_operand(self.left)} in {_operand(self.right, right=True)}"
 
     def evaluate(self, context: RenderContext) -> object:
         return _contains(
